@@ -11,7 +11,8 @@ for fn in os.listdir(src):
     if os.path.isfile(p) and os.path.getsize(p) < 300000 and not fn.endswith((".log", ".o")):
         shutil.copy(p, os.path.join(dst, fn))
 conf = None
-for log in ("/tmp/seed/confirm1.log", "/tmp/seed/confirm2.log", "/tmp/seed/confirm3.log", "/tmp/seed/confirm4.log"):
+import glob
+for log in sorted(glob.glob("/tmp/seed/confirm*.log")):
     if os.path.exists(log):
         for l in open(log):
             try:
